@@ -18,6 +18,60 @@ from ..loader import dotted, norm
 from .c04 import length_obligations
 
 
+def protocol_independence_obligations(ctx, rep, rule):
+    """In everything a handler does to describe an item (handler tests, getentry, prepare, getdirlist and the self-methods
+    and entry methods they call) the protocol object is only handed on - to nested handlers, exceptions - never asked.
+    What a handler computes is kept per directory (cache) and per entry for all protocols alike."""
+    prog = ctx.prog
+    from ..structure import parents
+
+    ge = ctx.cls("gopherentry.GopherEntry")
+    funcs = {}
+    for H in ctx.handler_classes():
+        work = [prog.resolve_method(H, nm) for nm in ("canhandlerequest", "getentry", "prepare", "getdirlist", "isdir", "__init__")]
+        seen = set()
+        while work:
+            m = work.pop()
+            if m is None or m in seen:
+                continue
+            seen.add(m)
+            funcs.setdefault(m, H)
+            for n in ast.walk(m.node):
+                if isinstance(n, ast.Call) and isinstance(n.func, ast.Attribute) and dotted(n.func.value) in ("self", "super()"):
+                    work.append(prog.resolve_method(H, n.func.attr) if dotted(n.func.value) == "self"
+                                else (prog.resolve_method(H, n.func.attr, after=m.cls) if m.cls is not None else None))
+    if ge is not None:
+        for c in prog.mro(ge):
+            for m in c.methods.values():
+                funcs.setdefault(m, ge)
+    hits = []
+    INSPECT = {"getattr", "hasattr", "isinstance", "issubclass", "type", "vars", "dir", "id", "repr", "str", "bool", "callable"}
+    for m in sorted(funcs, key=lambda x: x.qualname):
+        pm = parents(m.node)
+        for n in ast.walk(m.node):
+            is_proto = (isinstance(n, ast.Attribute) and norm(n) == "self.protocol") or \
+                       (isinstance(n, ast.Name) and n.id == "protocol" and "protocol" in m.params)
+            if not is_proto or not isinstance(getattr(n, "ctx", None), ast.Load):
+                continue
+            par = pm.get(n)
+            if isinstance(par, ast.Call) and (n in par.args) and (dotted(par.func) or "") not in INSPECT:
+                continue  # handed on
+            if isinstance(par, ast.keyword):
+                continue
+            if isinstance(par, ast.Assign) and par.value is n and all(norm(t) == "self.protocol" for t in par.targets):
+                continue
+            if isinstance(par, ast.Starred) or isinstance(par, (ast.Tuple, ast.List)):
+                continue
+            hits.append((m, par if par is not None else n))
+    if not hits:
+        rep.ok(rule, f"the protocol is only handed on [{len(funcs)} functions]", "pygopherd/handlers")
+    for m, n in hits:
+        rep.fail(rule, f"{m.qualname}: {norm(n)}", ctx.where(m, n),
+                 f"item information depends on the protocol that asks (`{norm(n)}`): the entry a handler builds - and the directory cache that keeps it "
+                 "for every protocol - then lacks what another protocol's request would have put there (attribute blocks, names, types)",
+                 key=f"{rule}|{m.qualname}|{norm(n)}")
+
+
 def check(ctx, rep):
     prog = ctx.prog
     rep.rule("R15a", "getinfoblock uses the plain Gopher renderobjinfo", floor=1)
@@ -25,6 +79,7 @@ def check(ctx, rep):
     rep.rule("R15c", "length prefix agrees with the body (shared with C04/R04b)", floor=5)
     rep.rule("R15d", "attribute content lines carry the one-space prefix (shared with C13/R13d)", floor=1)
     rep.rule("R15f", "item information is computed from the files of this request alone: no module- or class-level state written by the Gopher+ renderer or the entry population", floor=1)
+    rep.rule("R15g", "handlers build item information without looking at the protocol that asks (the listing cache and +INFO/attribute blocks are shared by all protocols)", floor=1)
     rep.rule("R15e", "sidecar reader: per configured extension, text lines right-stripped and newline-joined into the block", floor=1)
     gp = ctx.cls("protocols.gopherp.GopherPlusProtocol")
     plain = ctx.cls("protocols.rfc1436.GopherProtocol")
@@ -119,6 +174,9 @@ def check(ctx, rep):
     shared_state_obligations(ctx, rep, "R15f", Effects(prog, ctx.resolver), info_funcs, sequential=True)
     if len(rep.obligations) == n_before:
         rep.ok("R15f", "no shared state written while item information is built", "pygopherd/gopherentry.py")
+
+    # ------------------------------------------------------------------ R15g
+    protocol_independence_obligations(ctx, rep, "R15g")
 
     # ------------------------------------------------------------------ R15e
     ge = ctx.cls("gopherentry.GopherEntry")
